@@ -118,7 +118,7 @@ def main():
     import io, contextlib
     buf = io.StringIO()
     with contextlib.redirect_stdout(buf):
-        rc = r2.finish(rule="selftest")
+        rc = r2.finish(rule="selftest", write_evidence=False)
     core.KNOWN = saved
     out = buf.getvalue()
     expect("KNOWN-FINDING: property=SELFTEST sig=some-listed-signature" in out and "VIOLATION property=SELFTEST" in out and rc == 1,
